@@ -943,3 +943,240 @@ def link_partial_views(w, cfg):
         im = attempt(lambda: s.imass); iv = attempt(lambda: s.ivol)
         w.ensure(f'{tag}: the mass and volumetric views report the phase of their stream',
                  (not isinstance(im, Raised)) and (not isinstance(iv, Raised)) and im.phase == s.phase == iv.phase)
+
+
+# --------------------------------------------------------------------------- group 8: single-phase streams joined into a multi-phase stream
+# (added after the seeded change C11_4 was missed: a data link that REPLACES the thermal-condition object of a stream
+#  while the stream keeps its indexer - and with it every view the indexer has cached for the old condition object)
+
+JOIN_OPS = ['T@ms', 'P@last', 'T@last', 'wvol@last', 'wvol@first', 'wvol@ms', 'wmass@last', 'wmol@ms', 'F_vol@last', 'L/min@last', 'phases@ms']
+
+
+def joined_configs(tier):
+    out = []
+
+    def add(order, touch, seq):
+        out.append({'name': f"join={'+'.join(order)};touch={touch};ops=" + ('>'.join(seq) or '-'), 'order': list(order), 'touch': touch, 'ops': list(seq)})
+    if tier == 'quick':
+        for order in (('g', 'l'), ('l', 'g')):
+            for touch in ('views-before', 'none-before'):
+                add(order, touch, ())
+                for op in JOIN_OPS:
+                    add(order, touch, (op,))
+            for seq in [('T@ms', 'wvol@last'), ('wvol@last', 'P@last'), ('T@ms', 'L/min@last'), ('wvol@ms', 'T@last'), ('phases@ms', 'wvol@last'),
+                        ('T@ms', 'F_vol@last')]:
+                add(order, 'views-before', seq)
+        add(('s', 'l', 'g'), 'views-before', ('T@ms',))
+    else:
+        for order in (('g', 'l'), ('l', 'g'), ('l', 's'), ('g', 'l', 's'), ('s', 'l', 'g')):
+            for touch in ('views-before', 'none-before', 'views-before-and-touch-all'):
+                for n in (0, 1, 2):
+                    for seq in itertools.product(JOIN_OPS, repeat=n):
+                        if len(order) == 3 and n == 2 and touch != 'views-before':
+                            continue
+                        add(order, touch, seq)
+    return out
+
+
+FUNCS_JOIN = ['thermosteam._multi_stream:MultiStream.from_streams', 'thermosteam._multi_stream:MultiStream.__getitem__',
+              'thermosteam._multi_stream:MultiStream.phases', 'thermosteam.indexer:MolarFlowIndexer.from_data',
+              'thermosteam.indexer:MaterialIndexer.get_phase'] + FUNCS_VIEWS + FUNCS_WRITE[:11]
+
+
+@group('C11/joined_streams', configs=joined_configs, functions=FUNCS_JOIN, assumptions=ASSUME)
+def joined_streams(w, cfg):
+    """
+    Streams of different phases, each with its own temperature and pressure (and, for touch=views-before, with every view
+    already built at that condition) are joined by MultiStream.from_streams: from then on they all live at the thermal
+    condition of the first one.  Every relation of the property holds for every one of them and for the multi-phase
+    stream, at the temperature and pressure the stream reports NOW, also after later changes of T / P through any of
+    them and after writes through any view of any of them.
+    """
+    W.reset_caches()
+    th = package(w, 'A')
+    order = cfg['order']
+    parts = []
+    for n, ph in enumerate(order):
+        p, _ = mk(w, f'p{n}', ph, 'A', 'all-pos' if n == 0 else 'pos+maybe', th=th)
+        parts.append(p)
+    Ts = [p.T for p in parts]; Ps = [p.P for p in parts]
+    distinct(w, Ts); distinct(w, Ps)
+    touch = cfg['touch']
+    if touch.startswith('views-before'):
+        for n, p in enumerate(parts):
+            observe(w, p, f'before:p{n}', units=())
+    pre = [W.snapshot(p) for p in parts]
+    ms = tmo.MultiStream.from_streams(list(parts))
+    first, last = parts[0], parts[-1]
+    w.ensure('join: all streams report the temperature and pressure of the first one; molar data unchanged',
+             w.And(*[w.And(w.eq(p.T, Ts[0]), w.eq(p.P, Ps[0]), w.eq(ms.T, Ts[0]), w.eq(ms.P, Ps[0]), W.same_snapshot(w, q, W.snapshot(p)))
+                     for p, q in zip(parts, pre)]))
+    w.ensure('join: the multi-phase stream has one phase per stream', set(ms.phases) == set(order) and all(p.phase == ph for p, ph in zip(parts, order)))
+    live = [(f'p{n}', p) for n, p in enumerate(parts)] + [('ms', ms)]
+
+    def observe_all(tag, units=()):
+        for name, x_ in live:
+            observe(w, x_, f'{tag}:{name}', units=units if name != 'ms' else ())
+    if cfg['ops'] or touch.endswith('touch-all'):
+        observe_all('joined')
+    for n, op in enumerate(cfg['ops'], 1):
+        tag = f'step{n}({op})'
+        what, _, where = op.partition('@')
+        x_ = {'ms': ms, 'last': last, 'first': first}[where]
+        multi = isinstance(x_, tmo.MultiStream)
+        ph = last.phase if multi else x_.phase
+        key = (ph, 'Water') if multi else 'Water'
+        kW = x_.chemicals.IDs.index('Water')
+        if what in ('T', 'P'):
+            v = w.real(f'{what}{n}', lo=0, lo_strict=True)
+            lst = Ts if what == 'T' else Ps
+            lst.append(v); distinct_from(w, v, lst[:-1])
+            snap = [W.snapshot(p) for p in parts]
+            setattr(x_, what, v)
+            w.ensure(f'{tag}: every joined stream reports the new {what}; molar data unchanged',
+                     w.And(*[w.And(w.eq(getattr(p, what), v), W.same_snapshot(w, q, W.snapshot(p))) for p, q in zip(parts + [ms], snap + [W.snapshot(ms)])]))
+        elif what in ('wmol', 'wmass', 'wvol'):
+            x = w.real(f'x{n}', lo=0, lo_strict=True)
+            name = what[1:]
+            getattr(x_, 'i' + name)[key] = x
+            per = {'mol': 1., 'mass': float(x_.chemicals.MW[kW]), 'vol': 1000. * V_expected(w, x_, 'Water', ph, x_.T, x_.P)}[name]
+            raw = observe_raw(ms)[ph, 'Water']
+            w.ensure(f'{tag}: write through the {name} view, read back the written value', eq_or_fail(w, attempt(lambda: getattr(x_, 'i' + name)[key]), x))
+            w.ensure(f'{tag}: molar data = value / (1, MW, 1000 V(phase,T,P) now)', w.eq(raw * per, x))
+            w.ensure(f'{tag}: the phase stream and the multi-phase stream show the same entry',
+                     w.And(eq_or_fail(w, attempt(lambda: getattr(ms, 'i' + name)[ph, 'Water']), x),
+                           eq_or_fail(w, attempt(lambda: getattr(ms[ph], 'i' + name)['Water']), x)))
+        elif what == 'F_vol':
+            x = w.real(f'x{n}', lo=0, lo_strict=True)
+            old = observe_raw(x_); Fold = w.total(old.values())
+            x_.F_vol = x
+            new = observe_raw(x_)
+            w.ensure(f'{tag}: total volumetric flow reads back', eq_or_fail(w, attempt(lambda: x_.F_vol), x))
+            w.ensure(f'{tag}: composition unchanged when a total is set', w.And(*[w.eq(new[k] * Fold, old[k] * w.total(new.values())) for k in old]))
+        elif what == 'L/min':
+            x = w.real(f'x{n}', lo=0, lo_strict=True)
+            f = pint_factor('L/min')[1]; f2 = pint_factor('gal/min')[1]
+            x_.set_flow(x, 'L/min', key)
+            raw = observe_raw(ms)[ph, 'Water']
+            w.ensure(f'{tag}: read back in the same unit returns the written value', eq_or_fail(w, attempt(lambda: x_.get_flow('L/min', key)), x))
+            w.ensure(f'{tag}: read back in another unit returns value*factor', eq_or_fail(w, attempt(lambda: x_.get_flow('gal/min', key) * f), x * f2))
+            w.ensure(f'{tag}: molar data = value / unit factor / 1000 V(phase,T,P) now', w.eq(raw * 1000. * V_expected(w, x_, 'Water', ph, x_.T, x_.P) * f, x))
+        elif what == 'phases':
+            snap = {k: v for p in parts for k, v in observe_raw(p).items()}
+            ms.phases = tuple(ms.phases) + tuple(p for p in ('s', 'L') if p not in ms.phases)[:1]
+            now = {k: v for p in parts for k, v in observe_raw(p).items()}
+            w.ensure(f'{tag}: molar data of the joined streams unchanged by new phases of the multi-phase stream',
+                     w.And(set(now) == set(snap), *[w.eq(now[k], snap[k]) for k in snap]))
+        else:
+            raise RuntimeError(op)
+        if n < len(cfg['ops']) and (touch.endswith('touch-all') or n == 1):
+            observe_all(tag)
+    observe_all('end', units=('mol/s', 'lb/hr', 'L/min'))
+    w.canary('canary: the joined streams keep their own temperature', w.eq(last.T, Ts[len(parts) - 1]))
+    w.canary('canary: vol = 1000*V*mol + 1 (last stream)', eq_or_fail(w, attempt(lambda: last.ivol['Water']), 1000. * V_expected(w, last, 'Water', last.phase, last.T, last.P) * observe_raw(last)[last.phase, 'Water'] + 1.))
+
+
+# --------------------------------------------------------------------------- group 9: views used WHILE the indexer is on another package
+# (added after the seeded change C11_3 was missed: reset_chemicals(other) ... reset_chemicals(original, container) with the mass /
+#  volumetric views read or written in between - what Reaction.__call__ / force_reaction / conversion do for basis='wt')
+
+SWITCH_DURING = ['read-mass', 'read-vol', 'read-both', 'write-mass', 'write-vol', 'mass.data[:]=']
+
+
+def switch_view_configs(tier):
+    out = []
+    kinds = ['l', 'gl'] if tier == 'quick' else ['l', 'g', 'gl', 'gls']
+    for k in kinds:
+        for pkgB in ('B3', 'B'):
+            for during in SWITCH_DURING:
+                for touch in (True, False):
+                    if tier == 'quick' and pkgB == 'B' and (during not in ('read-mass', 'write-vol') or not touch):
+                        continue
+                    out.append({'name': f'kind={k};other={pkgB};during={during};views-before={touch}', 'kind': k, 'pkgB': pkgB, 'during': during, 'touch': touch})
+    return out
+
+
+@group('C11/package_switch_views', configs=switch_view_configs, assumptions=ASSUME,
+       functions=['thermosteam.indexer:ChemicalIndexer.reset_chemicals', 'thermosteam.indexer:MaterialIndexer.reset_chemicals',
+                  'thermosteam.reaction._reaction:as_material_array'] + FUNCS_VIEWS[:8] + FUNCS_WRITE[9:12])
+def package_switch_views(w, cfg):
+    """
+    The indexer of a stream is switched to another package, its mass / volumetric views are read or written there (they
+    are views of the SWITCHED data: mass = MW * mol, vol = 1000 V(phase,T,P) * mol in the other package's order), and it is
+    switched back with the container of the first switch.  Afterwards the stream is on its own package again and every view
+    the stream hands out agrees with its molar data - now, after a later molar write, and for writes through the views.
+    """
+    W.reset_caches()
+    thA = package(w, 'A'); thB = package(w, cfg['pkgB'])
+    s, _ = mk(w, 's', cfg['kind'], 'A', 'diag', th=thA)
+    multi = isinstance(s, tmo.MultiStream)
+    if cfg['touch']:
+        observe(w, s, 'before', units=())
+    old = observe_raw(s)
+    T, P = s.T, s.P
+    imol = s._imol
+    container = imol.reset_chemicals(thB.chemicals)
+    IDsB = thB.chemicals.IDs; MWB = thB.chemicals.MW
+
+    def raw_switched():
+        rows = list(zip(imol._phases, imol.data.rows)) if multi else [(imol._phase._phase, imol.data)]
+        return {(p, ID): sv.dct.get(k, 0.) for p, sv in rows for k, ID in enumerate(IDsB)}
+
+    def switched_views_agree(tag):
+        sw = raw_switched()
+        mass = attempt(lambda: s.imass); vol = attempt(lambda: s.ivol)       # (as_material_array: `material.imass.data`)
+        for (p, ID), n in sw.items():
+            key = (p, ID) if multi else ID
+            if 'vol' not in cfg['during']:
+                w.ensure(f'{tag}: switched mass view [{p},{ID}] = MW*mol', eq_or_fail(w, attempt(lambda: mass[key]), float(MWB[IDsB.index(ID)]) * n))
+            if 'mass' not in cfg['during']:
+                v = 1000. * V_expected(w, s, ID, p, T, P) * n if not _is_zero(n) else 0.
+                w.ensure(f'{tag}: switched volumetric view [{p},{ID}] = 1000*V(phase,T,P)*mol', eq_or_fail(w, attempt(lambda: vol[key]), v))
+        return mass, vol
+    ph = s.phases[0] if multi else s.phase
+    key = (ph, 'Water') if multi else 'Water'
+    during = cfg['during']
+    mass, vol = switched_views_agree('switched')
+    if during.startswith('write'):
+        x = w.real('x', lo=0, lo_strict=True)
+        name = during[6:]
+        view = mass if name == 'mass' else vol
+        view[key] = x
+        per = float(MWB[IDsB.index('Water')]) if name == 'mass' else 1000. * V_expected(w, s, 'Water', ph, T, P)
+        w.ensure(f'switched: write through the {name} view, read back the written value', eq_or_fail(w, attempt(lambda: view[key]), x))
+        w.ensure(f'switched: molar data = value / (MW, 1000 V(phase,T,P))', w.eq(raw_switched()[ph, 'Water'] * per, x))
+    elif during == 'mass.data[:]=':
+        original = mass.data
+        values = original.copy()
+        x = w.real('x', lo=0, lo_strict=True)
+        if multi: values[s.phases.index(ph), IDsB.index('Water')] = x
+        else: values[IDsB.index('Water')] = x
+        original[:] = values
+        w.ensure('switched: the array written through the mass view reads back',
+                 eq_or_fail(w, attempt(lambda: mass[key]), x))
+        w.ensure('switched: molar data = value / MW', w.eq(raw_switched()[ph, 'Water'] * float(MWB[IDsB.index('Water')]), x))
+    sw = raw_switched()
+    for k_, v_ in sw.items():
+        if k_ in old: old[k_] = v_
+    imol.reset_chemicals(thA.chemicals, container)
+    new = observe_raw(s)
+    w.ensure('back: original chemicals, flows carried over by chemical',
+             w.And(imol.chemicals is thA.chemicals, set(new) == set(old), *[w.eq(new.get(k, 0.), v) for k, v in old.items()]))
+    w.ensure('T, P unchanged', w.And(w.eq(s.T, T), w.eq(s.P, P)))
+    observe(w, s, 'after', units=('lb/hr', 'L/min'), canary=True)
+    im = attempt(lambda: s.imass); iv = attempt(lambda: s.ivol)
+    w.ensure('after: the mass and volumetric views are defined over the chemicals of the stream',
+             (not isinstance(im, Raised)) and (not isinstance(iv, Raised)) and im.chemicals is s.chemicals and iv.chemicals is s.chemicals)
+    # a later molar write shows in the views; writes through the views reach the molar data
+    key2 = (ph, 'Ethanol') if multi else 'Ethanol'
+    y = w.real('y', lo=0, lo_strict=True)
+    s.imol[key2] = y
+    observe(w, s, 'after molar write', units=())
+    MW = s.chemicals.MW; IDs = s.chemicals.IDs
+    for name in ('mass', 'vol'):
+        z = w.real('z_' + name, lo=0, lo_strict=True)
+        s.set_flow(z, BASE[name], key)
+        per = float(MW[IDs.index('Water')]) if name == 'mass' else 1000. * V_expected(w, s, 'Water', ph, s.T, s.P)
+        w.ensure(f'after: write through the {name} view, read back the written value', eq_or_fail(w, attempt(lambda: s.get_flow(BASE[name], key)), z))
+        w.ensure(f'after: molar data = value / (MW, 1000 V(phase,T,P))', w.eq(observe_raw(s)[ph, 'Water'] * per, z))
+    observe(w, s, 'after view writes', units=())
